@@ -156,6 +156,86 @@ Proof.
     + intros i Hi. rewrite forallb_forall in U3. apply U3. exact Hi.
 Qed.
 
+(* ---- the converse ---- *)
+
+Lemma find_from_complete : forall hist j0 p m i, nth_error hist i = Some m -> p <= j0 + i ->
+  exists j, find_from hist j0 p m = Some j /\ p <= j /\ j <= j0 + i.
+Proof.
+  induction hist as [|x t IH]; intros j0 p m i H L; [destruct i; discriminate|]. simpl.
+  destruct ((p <=? j0) && aset_eqb x m) eqn:C.
+  - apply andb_true_iff in C. destruct C as [C1 _]. apply Nat.leb_le in C1. exists j0. split; [reflexivity|lia].
+  - destruct i as [|i]; simpl in H.
+    + inversion H; subst. rewrite aset_eqb_refl, andb_true_r in C. apply Nat.leb_gt in C. lia.
+    + destruct (IH (S j0) p m i H) as [j [F [A B]]]; [lia|]. exists j. split; [exact F|lia].
+Qed.
+
+Lemma monotone_weaken : forall hist ms p q, p <= q -> monotone_in hist q ms -> monotone_in hist p ms.
+Proof.
+  intros hist [|m t] p q L H; simpl in *; [exact I|]. destruct H as [j [A [B C]]]. exists j. split; [lia|auto].
+Qed.
+
+Lemma check_msgs_complete : forall hist ms p, monotone_in hist p ms -> exists p', check_msgs hist p ms = Some p'.
+Proof.
+  intros hist ms. induction ms as [|m t IH]; intros p H; simpl in *; [eauto|].
+  destruct H as [j [A [B C]]].
+  destruct (find_from_complete hist 0 p m j B) as [j' [F [A' B']]]; [lia|]. rewrite F.
+  apply IH. apply (monotone_weaken hist t j' j); [lia|exact C].
+Qed.
+
+Lemma ok_latest_complete : forall hist fl g, latest_clause hist fl g -> snd (ok_latest hist fl g) = true.
+Proof.
+  intros hist fl. induction fl as [|f t IH]; intros [|ms g] [L R]; simpl in *; try discriminate; [reflexivity|].
+  assert (X : snd (ok_latest hist t g) = true).
+  { apply IH. split; [lia|]. intros i f0 ms0 Hf Hm. apply (R (S i) f0 ms0 Hf Hm). }
+  destruct (ok_latest hist t g) as [r b]. simpl in X. subst b.
+  destruct (check_msgs_complete hist ms (f_ptr f) (R 0 f ms eq_refl eq_refl)) as [p' E]. rewrite E. reflexivity.
+Qed.
+
+Lemma last_of_snoc : forall pre (x : aset), last_of (pre ++ [x]) = Some x.
+Proof. intros. unfold last_of. rewrite rev_app_distr. reflexivity. Qed.
+
+Lemma ok_converge_complete : forall cur fl g, converge_clause cur fl g -> ok_converge cur fl g = true.
+Proof.
+  intros cur fl. induction fl as [|f t IH]; intros [|ms g] H; simpl; try reflexivity.
+  apply andb_true_iff. split.
+  - destruct (f_reading f && negb (f_cancel f) && negb (f_unsub f)) eqn:C; [|reflexivity].
+    apply andb_true_iff in C. destruct C as [C C3]. apply andb_true_iff in C. destruct C as [C1 C2].
+    apply negb_true_iff in C2. apply negb_true_iff in C3.
+    destruct (H 0 f ms eq_refl eq_refl C1 C2 C3) as [pre E]. subst ms. rewrite last_of_snoc. simpl. apply aset_eqb_refl.
+  - apply IH. intros i f0 ms0 Hf Hm. apply (H (S i) f0 ms0 Hf Hm).
+Qed.
+
+(* the converse: the check accepts every run whose slots satisfy the clauses and
+   whose Unsubscribe calls completed *)
+Theorem ok_complete : forall c,
+  (forall pre sl post, slots c = pre ++ sl :: post -> slot_clause (fold_left ok_step pre (ok_init c)) sl) ->
+  (o_dead (ok_final c) = true \/
+   ((forall b, In b (fin_unsub c) -> b = true) /\
+    length (fin_unsub c) = length (o_calls (ok_final c)) /\
+    (forall i, In i (o_calls (ok_final c)) -> nth i (fin_closed c) false = true))) ->
+  ok c = true.
+Proof.
+  intros c H U. unfold ok. fold (ok_init c). fold (ok_final c).
+  assert (G : forall sls o, o_good o = true ->
+             (forall pre sl post, sls = pre ++ sl :: post -> slot_clause (fold_left ok_step pre o) sl) ->
+             o_good (fold_left ok_step sls o) = true).
+  { induction sls as [|sl t IH]; intros o Go R; simpl; [exact Go|].
+    apply IH.
+    - rewrite ok_step_good, Go. simpl. destruct (R [] sl t eq_refl) as [L C]. simpl in L, C.
+      unfold ok_lat. rewrite (ok_latest_complete _ _ _ L). simpl. unfold ok_conv.
+      destruct (act sl) eqn:A; try reflexivity.
+      destruct (ok_dead o AWait) eqn:D; [reflexivity|]. simpl.
+      apply ok_converge_complete. apply C; reflexivity.
+    - intros pre sl0 post E. apply (R (sl :: pre) sl0 post). simpl. rewrite E. reflexivity. }
+  apply andb_true_iff. split.
+  - apply G; [reflexivity|exact H].
+  - destruct U as [D|[U1 [U2 U3]]]; [rewrite D; reflexivity|].
+    apply orb_true_iff. right. apply andb_true_iff. split; [apply andb_true_iff; split|].
+    + apply forallb_forall. intros b Hb. apply U1 in Hb. exact Hb.
+    + apply Nat.eqb_eq. exact U2.
+    + apply forallb_forall. exact U3.
+Qed.
+
 (* ---- the model's own output ---- *)
 
 (* the model's own output under its canonical schedule *)
